@@ -260,39 +260,20 @@ def safe(text):
 HANDLERS = ("collect", "bare", "graphical")
 
 
-def _prof(signum, frame):
-    raise Hang()
-
-
-def run_one(text, handler="collect", cpu=2.0, wall=20.0, extra_files=None, listing=False):
-    """One run of the real assembler; the watchdog counts CPU time of this process (a busy machine
-    must not turn a slow run into a 'hang'), asm()'s wall-clock timer stays as a backstop.
+def run_one(text, handler="collect", cpu=2.0, extra_files=None, listing=False):
+    """One run of the real assembler.  asm()'s watchdog counts CPU time of this process (a busy machine must not
+    turn a slow run into a 'hang') and classifies a run it interrupted as 'hang' even when the interrupt's
+    exception was replaced while unwinding.
     -> (outcome, exc, [severity...], n_err, elapsed_cpu, listing or None)"""
     files = [(MAIN, text)] + list(extra_files or [])
     fs = FS if NEEDS_FS.search(text) else None
-    old = signal.signal(signal.SIGPROF, _prof)
     t0 = time.process_time()
-    r = None
     try:
-        signal.setitimer(signal.ITIMER_PROF, cpu)
-        try:
-            r = asm(files, timeout=wall, fs=fs, handler=handler, listing=listing)
-        finally:
-            signal.setitimer(signal.ITIMER_PROF, 0)
-    except Hang:
-        r = None
-    finally:
-        signal.setitimer(signal.ITIMER_PROF, 0)
-        signal.signal(signal.SIGPROF, old)
+        r = asm(files, timeout=cpu, fs=fs, handler=handler, listing=listing)
+    except Hang:                 # the interrupt landed in asm()'s own bookkeeping
+        return ("hang", None, [], 0, time.process_time() - t0, None)
     used = time.process_time() - t0
-    if r is None:
-        return ("hang", None, [], 0, used, None)
-    outcome, exc = r["outcome"], r["exc"]
-    if outcome == "exception" and used >= cpu * 0.9:
-        # the watchdog's exception was replaced while unwinding (an assert in Awaiting.__exit__ sees
-        # the stack the interrupt left behind): the run was interrupted, i.e. it is a hang
-        outcome, exc = "hang", None
-    return (outcome, exc, [x[0] for x in r["reports"]], r["n_err"], used, r["listing"])
+    return (r["outcome"], r["exc"], [x[0] for x in r["reports"]], r["n_err"], used, r["listing"])
 
 
 def _child(tasks, handlers, cpu, wfd, listing=False):
@@ -393,7 +374,7 @@ def fresh(text, handler="collect", cpu=5.0, extra_files=None):
     if pid == 0:
         os.close(rfd)
         try:
-            o = run_one(text, handler, cpu=cpu, wall=60.0, extra_files=extra_files)
+            o = run_one(text, handler, cpu=cpu, extra_files=extra_files)
             os.write(wfd, pickle.dumps(o))
         finally:
             os._exit(0)
